@@ -421,7 +421,13 @@ def _eval_new_ctx(
         if ProcessingStage.PATH_COMMIT in stages:
             _logger.debug(f"Starting stage {ProcessingStage.PATH_COMMIT}")
             t = _time()
-            _store().sync_paths(store_paths)
+            # Only the paths whose blob is in the store are committed: a keep that the analysis found
+            # but that this evaluation did not execute has produced nothing for its path to point to.
+            committed_paths: "OrderedDict[DDSPath, PyHash]" = OrderedDict()
+            for (store_path, store_key) in store_paths.items():
+                if _store().has_blob(store_key):
+                    committed_paths[store_path] = store_key
+            _store().sync_paths(committed_paths)
             _add_delta(t, ProcessingStage.PATH_COMMIT)
             _logger.debug(f"Stage {ProcessingStage.PATH_COMMIT} done")
         else:
